@@ -4,6 +4,7 @@
   and how blocks of consecutive lexer tokens line up.
 -/
 import HL.Lemmas.SemTok
+import HL.Lemmas.SemTokUtf
 
 namespace HL.Lemmas.SemTok
 open HL HL.SemTok HL.SemTokSpec
@@ -67,67 +68,87 @@ theorem spansFrom_mono_lo {lo lo' hi : Nat} {l : List TagSpan} (hl : lo' ≤ lo)
 
 def isTagTy (sp : TagSpan) : Prop := sp.ty = tyTag ∨ sp.ty = tyTagValue
 
-/-- One loop iteration appends spans that lie between the old and the new `searchStart`. -/
-theorem extractStep_spec (cls : Classes) (comment : Bytes) (st : Nat × List TagSpan)
-    (part : Bytes) (hst : st.1 ≤ comment.length) :
-    ∃ new, (extractStep cls comment st part).2 = st.2 ++ new ∧
-      SpansFrom st.1 new (extractStep cls comment st part).1 ∧
-      (extractStep cls comment st part).1 ≤ comment.length ∧
+theorem spansFrom_mem_le {lo hi : Nat} {l : List TagSpan} (h : SpansFrom lo l hi) :
+    ∀ sp ∈ l, lo ≤ sp.off ∧ sp.off + sp.len ≤ hi := by
+  induction l generalizing lo with
+  | nil => intro sp hsp; cases hsp
+  | cons a rest ih =>
+    intro sp hsp
+    rcases List.mem_cons.mp hsp with rfl | hsp
+    · exact ⟨h.1, spansFrom_le h.2⟩
+    · have := ih h.2 sp hsp
+      exact ⟨by have := h.1; omega, this.2⟩
+
+theorem spansFrom_mono_hi {lo hi hi' : Nat} {l : List TagSpan} (hl : hi ≤ hi')
+    (h : SpansFrom lo l hi) : SpansFrom lo l hi' := by
+  induction l generalizing lo with
+  | nil => exact Nat.le_trans h hl
+  | cons sp rest ih => exact ⟨h.1, ih h.2⟩
+
+/-- One loop iteration appends spans that lie inside the part, and moves `partStart` behind
+    the part and its comma. -/
+theorem extractStep_spec (cls : Classes) (st : Nat × List TagSpan) (part : Bytes) :
+    ∃ new, (extractStep cls st part).2 = st.2 ++ new ∧
+      SpansFrom st.1 new (st.1 + part.length) ∧
+      (extractStep cls st part).1 = st.1 + part.length + 1 ∧
       ∀ sp ∈ new, isTagTy sp := by
-  have triv : ∃ new, st.2 = st.2 ++ new ∧ SpansFrom st.1 new st.1 ∧ st.1 ≤ comment.length ∧
-      ∀ sp ∈ new, isTagTy sp := ⟨[], by simp, Nat.le_refl _, hst, by simp⟩
-  generalize hres : extractStep cls comment st part = res
+  have triv : ∃ new, st.2 = st.2 ++ new ∧ SpansFrom st.1 new (st.1 + part.length) ∧
+      st.1 + part.length + 1 = st.1 + part.length + 1 ∧ ∀ sp ∈ new, isTagTy sp :=
+    ⟨[], by simp, Nat.le_add_right _ _, rfl, by simp⟩
+  have hpart := leadWs_trim_le part
+  generalize hres : extractStep cls st part = res
   simp only [extractStep] at hres
-  generalize trimSpace part = trimmed at hres
+  generalize trimSpace part = trimmed at hres hpart
   split at hres
   · subst hres; exact triv
-  · rename_i colonIdx _
-    generalize trimSpace (List.take colonIdx trimmed) = name at hres
-    generalize (if colonIdx + 1 < trimmed.length then trimSpace (List.drop (colonIdx + 1) trimmed) else []) = value at hres
+  · rename_i colonIdx hci
+    have hcl := indexOf_le _ _ _ hci
+    simp only [List.length_singleton] at hcl
+    have hname : (List.take colonIdx trimmed).length = colonIdx := by
+      simp only [List.length_take]; omega
+    have hrest := leadWs_trim_le (List.drop (colonIdx + 1) trimmed)
+    simp only [List.length_drop] at hrest
+    generalize List.take colonIdx trimmed = name at hres hname
+    generalize trimSpace (List.drop (colonIdx + 1) trimmed) = value at hres hrest
+    generalize leadWs (List.drop (colonIdx + 1) trimmed) = lwr at hres hrest
     split at hres
     · subst hres; exact triv
     · split at hres
-      · subst hres; exact triv
-      · rename_i ts hts
-        have hlen := indexOf_le _ _ _ hts
-        simp only [List.length_drop, List.length_append, List.length_singleton] at hlen
-        have hEnd : ts + st.1 + name.length + 1 ≤ comment.length := by omega
-        split at hres
-        · subst hres
-          refine ⟨[{ off := ts + st.1, len := name.length + 1, ty := tyTag }], rfl,
-            ⟨by simp, by simp only [SpansFrom]; omega⟩, hEnd, ?_⟩
-          intro sp hsp; simp at hsp; subst hsp; exact Or.inl rfl
-        · split at hres
-          · subst hres
-            refine ⟨[{ off := ts + st.1, len := name.length + 1, ty := tyTag }], rfl,
-              ⟨by simp, by simp only [SpansFrom]; omega⟩, hEnd, ?_⟩
-            intro sp hsp; simp at hsp; subst hsp; exact Or.inl rfl
-          · rename_i vs hvs
-            have hlen2 := indexOf_le _ _ _ hvs
-            simp only [List.length_drop] at hlen2
-            subst hres
-            refine ⟨[{ off := ts + st.1, len := name.length + 1, ty := tyTag },
-                { off := ts + st.1 + name.length + 1 + vs, len := value.length, ty := tyTagValue }],
-              by simp, ⟨by simp, ⟨by simp only; omega, by simp only [SpansFrom]; omega⟩⟩, by simp only; omega, ?_⟩
-            intro sp hsp
-            simp at hsp
-            rcases hsp with rfl | rfl
-            · exact Or.inl rfl
-            · exact Or.inr rfl
+      · subst hres
+        refine ⟨[{ off := st.1 + leadWs part, len := name.length + 1, len16 := u16lenB name + 1, ty := tyTag }],
+          rfl, ⟨by simp, by simp only [SpansFrom]; omega⟩, rfl, ?_⟩
+        intro sp hsp; simp at hsp; subst hsp; exact Or.inl rfl
+      · subst hres
+        refine ⟨[{ off := st.1 + leadWs part, len := name.length + 1, len16 := u16lenB name + 1, ty := tyTag },
+            { off := st.1 + leadWs part + name.length + 1 + lwr, len := value.length,
+              len16 := u16lenB value, ty := tyTagValue }],
+          by simp, ⟨by simp, ⟨by simp only; omega, by simp only [SpansFrom]; omega⟩⟩, rfl, ?_⟩
+        intro sp hsp
+        simp at hsp
+        rcases hsp with rfl | rfl
+        · exact Or.inl rfl
+        · exact Or.inr rfl
 
-theorem extractFold_spec (cls : Classes) (comment : Bytes) (parts : List Bytes)
-    (st : Nat × List TagSpan) (hst : st.1 ≤ comment.length) :
-    ∃ new, (parts.foldl (extractStep cls comment) st).2 = st.2 ++ new ∧
-      SpansFrom st.1 new (parts.foldl (extractStep cls comment) st).1 ∧
-      (parts.foldl (extractStep cls comment) st).1 ≤ comment.length ∧
+theorem extractFold_spec (cls : Classes) (parts : List Bytes) (st : Nat × List TagSpan) :
+    ∃ new, (parts.foldl (extractStep cls) st).2 = st.2 ++ new ∧
+      (parts.foldl (extractStep cls) st).1 = st.1 + partsLen parts ∧
+      ((parts = [] ∧ new = []) ∨ SpansFrom st.1 new (st.1 + partsLen parts - 1)) ∧
       ∀ sp ∈ new, isTagTy sp := by
   induction parts generalizing st with
-  | nil => exact ⟨[], by simp, Nat.le_refl _, hst, by simp⟩
+  | nil => exact ⟨[], by simp, by simp [partsLen], Or.inl ⟨rfl, rfl⟩, by simp⟩
   | cons p rest ih =>
-    obtain ⟨n1, e1, s1, l1, t1⟩ := extractStep_spec cls comment st p hst
-    obtain ⟨n2, e2, s2, l2, t2⟩ := ih (extractStep cls comment st p) l1
-    refine ⟨n1 ++ n2, ?_, spansFrom_append s1 s2, l2, ?_⟩
+    obtain ⟨n1, e1, s1, l1, t1⟩ := extractStep_spec cls st p
+    obtain ⟨n2, e2, l2, s2, t2⟩ := ih (extractStep cls st p)
+    refine ⟨n1 ++ n2, ?_, ?_, Or.inr ?_, ?_⟩
     · simp only [List.foldl_cons, e2, e1, List.append_assoc]
+    · simp only [List.foldl_cons, l2, l1, partsLen]; omega
+    · rcases s2 with ⟨hr, hn⟩ | s2
+      · subst hr; subst hn
+        simp only [List.append_nil, partsLen]
+        exact spansFrom_mono_hi (by omega) s1
+      · rw [l1] at s2
+        refine spansFrom_append s1 (spansFrom_mono_lo (by omega) (spansFrom_mono_hi ?_ s2))
+        simp only [partsLen]; omega
     · intro sp hsp
       rcases List.mem_append.mp hsp with h | h
       · exact t1 sp h
@@ -140,9 +161,13 @@ theorem extractSpans_spec (cls : Classes) (comment : Bytes) :
   unfold extractSpans
   split
   · exact ⟨0, Nat.zero_le _, Nat.le_refl _, by simp⟩
-  · obtain ⟨new, e, s, l, t⟩ := extractFold_spec cls comment (splitOn comma comment) (0, []) (Nat.zero_le _)
+  · obtain ⟨new, e, _, s, t⟩ := extractFold_spec cls (splitOn comma comment) (0, [])
     simp only [List.nil_append] at e
-    exact ⟨_, l, e ▸ s, e ▸ t⟩
+    have hl := splitOn_partsLen comma comment
+    rcases s with ⟨hp, _⟩ | s
+    · exact absurd hp (splitOn_ne_nil _ _)
+    · rw [hl] at s
+      exact ⟨comment.length, Nat.le_refl _, by simpa [e] using s, e ▸ t⟩
 
 /-! ### `uint32` conversions without wrap-around -/
 
@@ -246,91 +271,264 @@ theorem block_mono {L lo lo' hi hi' : Nat} {l : List AbsTok} (h : Block L lo hi 
 
 theorem u32_toNat (n : Nat) (h : n < 2 ^ 32) : (u32 n).toNat = n := u32_toNat_of_lt n h
 
-theorem spans_block (L : Nat) (bl bc : UInt32) (hL : bl.toNat = L) (spans : List TagSpan)
-    (lo hi : Nat) (h : SpansFrom lo spans hi) (hb : bc.toNat + 1 + hi < 2 ^ 32) :
-    Block L (bc.toNat + 1 + lo) (bc.toNat + 1 + hi) (spans.map (fun sp => absOf (tagToken bl bc sp))) := by
+theorem noLf_iff (text : Bytes) (a b : Nat) (h : noLf text a b = true) : NoLfP text a b := by
+  apply noLfP_of_slice
+  simp only [noLf, Bool.not_eq_true', List.contains_eq_mem, decide_eq_false_iff_not] at h
+  exact h
+
+/-- What `extentOk` says, as propositions. -/
+structure ExtentP (text : Bytes) (t : Token) : Prop where
+  l1 : 1 ≤ t.pos.line
+  l2 : t.pos.line < 2 ^ 32
+  le : t.pos.off ≤ t.stop.off
+  inText : t.stop.off ≤ text.length
+  small : text.length < 2 ^ 32
+  oneLine : NoLfP text t.pos.off t.stop.off
+  cmt : t.ty = .comment → sliceB text t.pos.off t.stop.off = 0x3B :: t.val
+
+theorem extentP_of (text : Bytes) (t : Token) (h : extentOk text t = true) : ExtentP text t := by
+  simp only [extentOk, Bool.and_eq_true, decide_eq_true_eq, Bool.or_eq_true, bne_iff_ne, ne_eq,
+    beq_iff_eq] at h
+  obtain ⟨⟨⟨⟨⟨⟨h1, h2⟩, h3⟩, h4⟩, h5⟩, h6⟩, h7⟩ := h
+  refine ⟨h1, h2, h3, h4, h5, noLf_iff _ _ _ h6, fun hc => ?_⟩
+  rcases h7 with h7 | h7
+  · exact absurd hc h7
+  · exact h7
+
+theorem ExtentP.cmtLen {text : Bytes} {t : Token} (h : ExtentP text t) (hc : t.ty = .comment) :
+    t.pos.off + 1 + t.val.length = t.stop.off := by
+  have h1 := congrArg List.length (h.cmt hc)
+  rw [sliceB_length _ _ _ h.inText] at h1
+  simp only [List.length_cons] at h1
+  have := h.le
+  omega
+
+theorem colAt_lt (text : Bytes) (off : Nat) (h : text.length < 2 ^ 32) : colAt text off < 2 ^ 32 :=
+  Nat.lt_of_le_of_lt (colAt_le text off) h
+
+/-- The absolute token made from a span. -/
+theorem absOf_tagToken (text : Bytes) (t : Token) (sp : TagSpan) (he : ExtentP text t)
+    (h16 : sp.len16 < 2 ^ 32) :
+    absOf (tagToken text t sp)
+      = ⟨t.pos.line - 1, colAt text (t.pos.off + 1 + sp.off), sp.len16, sp.ty.toNat, 0⟩ := by
+  simp only [absOf, tagToken, u32pred_toNat _ he.l1 he.l2, u32_toNat _ (colAt_lt text _ he.small),
+    u32_toNat _ h16]
+  rfl
+
+theorem absOf_plainToken (text : Bytes) (t : Token) (semType mods : UInt32) (he : ExtentP text t)
+    (h16 : (plainSpan text t semType).len16 < 2 ^ 32) :
+    absOf (plainToken text t semType mods)
+      = ⟨t.pos.line - 1, colAt text (plainSpan text t semType).off, (plainSpan text t semType).len16,
+         semType.toNat, mods.toNat⟩ := by
+  simp only [absOf, plainToken, u32pred_toNat _ he.l1 he.l2, u32_toNat _ (colAt_lt text _ he.small),
+    u32_toNat _ h16]
+
+/-- The spans of a comment, shifted to absolute offsets, turned into tokens, form a block. -/
+theorem spans_block (text : Bytes) (t : Token) (he : ExtentP text t) (spans : List TagSpan)
+    (lo hi : Nat) (h : SpansFrom lo spans hi)
+    (hline : NoLfP text (t.pos.off + 1 + lo) (t.pos.off + 1 + hi))
+    (hm : ∀ sp ∈ spans, measured text { sp with off := t.pos.off + 1 + sp.off } = true) :
+    Block (t.pos.line - 1) (colAt text (t.pos.off + 1 + lo)) (colAt text (t.pos.off + 1 + hi))
+      (spans.map (fun sp => absOf (tagToken text t sp))) := by
   induction spans generalizing lo with
-  | nil => simp only [List.map_nil, Block]; have : lo ≤ hi := h; omega
+  | nil =>
+    simp only [List.map_nil, Block]
+    have : lo ≤ hi := h
+    exact colAt_mono _ _ _ (by omega) hline
   | cons sp rest ih =>
     have hle := spansFrom_le h.2
-    have h1 : (u32 sp.off).toNat = sp.off := u32_toNat _ (by omega)
-    have h2 : (u32 sp.len).toNat = sp.len := u32_toNat _ (by omega)
-    have h3 : (bc + 1).toNat = bc.toNat + 1 := by
-      rw [u32_add_toNat] <;> simp <;> omega
-    have h4 : (bc + 1 + u32 sp.off).toNat = bc.toNat + 1 + sp.off := by
-      rw [u32_add_toNat] <;> rw [h3, h1] ; omega
-    simp only [List.map_cons, Block]
-    refine ⟨by simp [absOf, tagToken, hL], by simp only [absOf, tagToken, h4]; have := h.1; omega, ?_⟩
-    have := ih (sp.off + sp.len) h.2
-    simpa [absOf, tagToken, h4, h2, Nat.add_assoc] using this
+    have hlo := h.1
+    have hm0 := hm sp List.mem_cons_self
+    simp only [measured, Bool.and_eq_true, decide_eq_true_eq] at hm0
+    have h16 : sp.len16 < 2 ^ 32 := by omega
+    simp only [List.map_cons, Block, absOf_tagToken text t sp he h16]
+    refine ⟨trivial, colAt_mono _ _ _ (by omega) (noLfP_sub hline (Nat.le_refl _) (by omega)), ?_⟩
+    have := ih (sp.off + sp.len) h.2 (noLfP_sub hline (by omega) (Nat.le_refl _))
+      (fun sp' hsp' => hm sp' (List.mem_cons_of_mem _ hsp'))
+    refine block_mono this ?_ (Nat.le_refl _)
+    have e : t.pos.off + 1 + (sp.off + sp.len) = t.pos.off + 1 + sp.off + sp.len := by omega
+    rw [e]; exact hm0.1
 
-theorem stepTok_block (cls : Classes) (c : Ctx) (t : Token) (hb : tokBounds cls t = true) :
-    Block (t.pos.line - 1) (t.pos.col - 1) (t.pos.col - 1 + claimWidth cls t)
-      ((stepTok cls c t).2.map absOf) := by
-  simp only [tokBounds, Bool.and_eq_true, decide_eq_true_eq] at hb
-  obtain ⟨⟨⟨hl1, hl2⟩, hc1⟩, hw⟩ := hb
-  have hline : (u32pred t.pos.line).toNat = t.pos.line - 1 := u32pred_toNat _ hl1 hl2
-  have hcol : (u32pred t.pos.col).toNat = t.pos.col - 1 := u32pred_toNat _ hc1 (by omega)
-  generalize hres : stepTok cls c t = res
+theorem plainSpan_ty_irrel (text : Bytes) (t : Token) (x y : UInt32) :
+    (plainSpan text t x).off = (plainSpan text t y).off ∧
+    (plainSpan text t x).len = (plainSpan text t y).len ∧
+    (plainSpan text t x).len16 = (plainSpan text t y).len16 := by
+  simp only [plainSpan]; split <;> simp
+
+/-- The plain span lies inside the token's extent. -/
+theorem plainSpan_inside (text : Bytes) (t : Token) (x : UInt32) (he : ExtentP text t) :
+    t.pos.off ≤ (plainSpan text t x).off ∧
+    (plainSpan text t x).off + (plainSpan text t x).len ≤ t.stop.off := by
+  simp only [plainSpan]
+  split
+  · rename_i hc
+    have := he.cmtLen (by simpa using hc)
+    simp only; omega
+  · have h1 := leadWs_trim_le (sliceB text t.pos.off t.stop.off)
+    rw [sliceB_length _ _ _ he.inText] at h1
+    have := he.le
+    simp only; omega
+
+theorem extractTags_isEmpty (cls : Classes) (text : Bytes) (t : Token) :
+    (extractTags cls text t).isEmpty = (extractSpans cls t.val).isEmpty := by
+  simp [extractTags]
+
+theorem stepTok_block (cls : Classes) (text : Bytes) (c : Ctx) (t : Token)
+    (he : ExtentP text t) (hm : (emitted cls text t).all (measured text) = true) :
+    Block (t.pos.line - 1) (colAt text t.pos.off) (colAt text t.stop.off)
+      ((stepTok cls text c t).2.map absOf) := by
+  have hwhole : colAt text t.pos.off ≤ colAt text t.stop.off := colAt_mono _ _ _ he.le he.oneLine
+  generalize hres : stepTok cls text c t = res
   simp only [stepTok] at hres
-  cases hm : mapTokenType t.ty with
-  | none =>
-    simp only [hm] at hres
-    subst hres
-    simp [Block]
-  | some semType =>
-    simp only [hm] at hres
-    have hcw : claimWidth cls t = if t.ty == .comment then
-        (if (extractSpans cls t.val).isEmpty then u16lenB t.val + 1 else t.val.length + 1)
-        else u16lenB t.val := by simp [claimWidth, hm]
-    by_cases hcm : t.ty = .comment
-    · have hc' : (t.ty == TokType.comment) = true := by simp [hcm]
-      simp only [hc', if_true] at hres hcw
-      by_cases hsp : (extractSpans cls t.val).isEmpty = true
-      · -- a comment without tags: one token
-        have htags : (extractTags cls t).isEmpty = true := by
-          simp [extractTags, List.isEmpty_iff] at hsp ⊢; exact hsp
-        simp only [htags, Bool.not_true, Bool.false_eq_true, if_false] at hres
-        simp only [hsp, if_true] at hcw
-        subst hres
-        have hlen : (u32 (u16lenB t.val) + 1).toNat = u16lenB t.val + 1 := by
-          rw [u32_add_toNat] <;> rw [u32_toNat _ (by omega)] <;> simp <;> omega
-        simp only [List.map_cons, List.map_nil, Block, absOf, plainToken, hc', if_true, hline, hcol,
-          hlen, hcw]
-        exact ⟨trivial, Nat.le_refl _, Nat.le_refl _⟩
-      · have htags : (extractTags cls t).isEmpty = false := by
-          simp [extractTags, List.isEmpty_iff] at hsp ⊢; exact hsp
-        simp only [htags, Bool.not_false, if_true] at hres
-        simp only [hsp, Bool.false_eq_true, if_false] at hcw
-        subst hres
-        obtain ⟨hi, hhi, hs, _⟩ := extractSpans_spec cls t.val
-        have := spans_block (t.pos.line - 1) (u32pred t.pos.line) (u32pred t.pos.col) hline
-          (extractSpans cls t.val) 0 hi hs (by rw [hcol]; omega)
-        simp only [extractTags, List.map_map]
-        rw [hcol] at this
-        exact block_mono this (by omega) (by omega)
-    · have hc' : (t.ty == TokType.comment) = false := by simp [hcm]
-      simp only [hc', Bool.false_eq_true, if_false, List.isEmpty_nil, Bool.not_true] at hres hcw
+  cases hmt : mapTokenType t.ty with
+  | none => simp only [hmt] at hres; subst hres; simpa [Block] using hwhole
+  | some semType0 =>
+    simp only [hmt] at hres
+    generalize (if (t.ty == TokType.text && (lineStart c t).isPayee) = true then tyPayee else semType0) = semType at hres
+    by_cases hsp : (t.ty == .comment && !(extractSpans cls t.val).isEmpty) = true
+    · -- a comment with tags
+      simp only [Bool.and_eq_true, beq_iff_eq, Bool.not_eq_true', ] at hsp
+      obtain ⟨hcm, hne⟩ := hsp
+      have hc' : (t.ty == TokType.comment) = true := by simp [hcm]
+      simp only [hc', if_true, extractTags_isEmpty, hne, Bool.not_false] at hres
       subst hres
-      have hlen : (u32 (u16lenB t.val)).toNat = u16lenB t.val := u32_toNat _ (by omega)
-      simp only [List.map_cons, List.map_nil, Block, absOf, plainToken, hc', Bool.false_eq_true,
-        if_false, hline, hcol, hlen, hcw]
-      exact ⟨trivial, Nat.le_refl _, Nat.le_refl _⟩
+      have hem : emitted cls text t
+          = (extractSpans cls t.val).map fun sp => { sp with off := t.pos.off + 1 + sp.off } := by
+        simp [emitted, hc', hne]
+      rw [hem] at hm
+      obtain ⟨hi, hhi, hs, _⟩ := extractSpans_spec cls t.val
+      have hcl := he.cmtLen hcm
+      have := spans_block text t he (extractSpans cls t.val) 0 hi hs
+        (noLfP_sub he.oneLine (by omega) (by omega))
+        (fun sp hsp => by
+          simp only [List.all_map, List.all_eq_true] at hm
+          exact hm sp hsp)
+      simp only [extractTags, List.map_map]
+      refine block_mono this ?_ ?_
+      · exact colAt_mono _ _ _ (by omega) (noLfP_sub he.oneLine (Nat.le_refl _) (by omega))
+      · exact colAt_mono _ _ _ (by omega) (noLfP_sub he.oneLine (by omega) (Nat.le_refl _))
+    · -- a plain token (or nothing)
+      have htags : (if (t.ty == TokType.comment) = true then extractTags cls text t else []).isEmpty = true := by
+        by_cases hcm : (t.ty == TokType.comment) = true
+        · simp only [hcm, if_true, extractTags_isEmpty]
+          simpa [hcm] using hsp
+        · simp [hcm]
+      simp only [htags, Bool.not_true, Bool.false_eq_true, if_false] at hres
+      split at hres
+      · subst hres; simpa [Block] using hwhole
+      · rename_i hnz
+        subst hres
+        have hn0 : (plainSpan text t semType).len16 ≠ 0 := by
+          intro e; apply hnz; rw [e]; rfl
+        have hirr := plainSpan_ty_irrel text t 0 semType
+        have hem : emitted cls text t = [plainSpan text t 0] := by
+          have h0 : (plainSpan text t 0).len16 ≠ 0 := by rw [hirr.2.2]; exact hn0
+          have : ((if (t.ty == TokType.comment) = true then extractSpans cls t.val else []).isEmpty) = true := by
+            by_cases hcm : (t.ty == TokType.comment) = true
+            · simp only [hcm, if_true]; simpa [hcm] using hsp
+            · simp [hcm]
+          have hb : ((plainSpan text t 0).len16 == 0) = false := by simpa using h0
+          simp only [emitted, this, Bool.not_true, Bool.false_eq_true, if_false, hb]
+        rw [hem] at hm
+        simp only [List.all_cons, List.all_nil, Bool.and_true, measured, Bool.and_eq_true,
+          decide_eq_true_eq] at hm
+        rw [hirr.1, hirr.2.1, hirr.2.2] at hm
+        have hin := plainSpan_inside text t semType he
+        have h16 : (plainSpan text t semType).len16 < 2 ^ 32 := by omega
+        simp only [List.map_cons, List.map_nil, Block, absOf_plainToken text t semType _ he h16]
+        refine ⟨trivial, colAt_mono _ _ _ hin.1 (noLfP_sub he.oneLine (Nat.le_refl _) (by omega)), ?_⟩
+        refine Nat.le_trans hm.1 (colAt_mono _ _ _ hin.2 (noLfP_sub he.oneLine (by omega) (Nat.le_refl _)))
+
+/-- Every token made from lexer token `t` is made from one of the pieces `emitted` lists: same
+    line, the cursor's column of the piece's first byte, the piece's UTF-16 length. -/
+theorem stepTok_abs_mem (cls : Classes) (text : Bytes) (c : Ctx) (t : Token)
+    (he : ExtentP text t) (hm : (emitted cls text t).all (measured text) = true)
+    (a : AbsTok) (ha : a ∈ (stepTok cls text c t).2.map absOf) :
+    ∃ sp ∈ emitted cls text t, a.line = t.pos.line - 1 ∧ a.start = colAt text sp.off ∧ a.len = sp.len16 := by
+  generalize hres : stepTok cls text c t = res at ha
+  simp only [stepTok] at hres
+  cases hmt : mapTokenType t.ty with
+  | none => simp only [hmt] at hres; subst hres; simp at ha
+  | some semType0 =>
+    simp only [hmt] at hres
+    generalize (if (t.ty == TokType.text && (lineStart c t).isPayee) = true then tyPayee else semType0) = semType at hres
+    by_cases hsp : (t.ty == .comment && !(extractSpans cls t.val).isEmpty) = true
+    · simp only [Bool.and_eq_true, beq_iff_eq, Bool.not_eq_true'] at hsp
+      obtain ⟨hcm, hne⟩ := hsp
+      have hc' : (t.ty == TokType.comment) = true := by simp [hcm]
+      simp only [hc', if_true, extractTags_isEmpty, hne, Bool.not_false] at hres
+      subst hres
+      have hem : emitted cls text t
+          = (extractSpans cls t.val).map fun sp => { sp with off := t.pos.off + 1 + sp.off } := by
+        simp [emitted, hc', hne]
+      rw [hem] at hm ⊢
+      simp only [extractTags, List.map_map, List.mem_map, Function.comp] at ha
+      obtain ⟨sp, hsp, rfl⟩ := ha
+      simp only [List.all_map, List.all_eq_true] at hm
+      have hm0 := hm sp hsp
+      simp only [Function.comp, measured, Bool.and_eq_true, decide_eq_true_eq] at hm0
+      have h16 : sp.len16 < 2 ^ 32 := by omega
+      refine ⟨_, List.mem_map.mpr ⟨sp, hsp, rfl⟩, ?_⟩
+      rw [absOf_tagToken text t sp he h16]
+      exact ⟨rfl, rfl, rfl⟩
+    · have htags : (if (t.ty == TokType.comment) = true then extractTags cls text t else []).isEmpty = true := by
+        by_cases hcm : (t.ty == TokType.comment) = true
+        · simp only [hcm, if_true, extractTags_isEmpty]
+          simpa [hcm] using hsp
+        · simp [hcm]
+      simp only [htags, Bool.not_true, Bool.false_eq_true, if_false] at hres
+      split at hres
+      · subst hres; simp at ha
+      · rename_i hnz
+        subst hres
+        have hn0 : (plainSpan text t semType).len16 ≠ 0 := by
+          intro e; apply hnz; rw [e]; rfl
+        have hirr := plainSpan_ty_irrel text t 0 semType
+        have hem : emitted cls text t = [plainSpan text t 0] := by
+          have h0 : (plainSpan text t 0).len16 ≠ 0 := by rw [hirr.2.2]; exact hn0
+          have : ((if (t.ty == TokType.comment) = true then extractSpans cls t.val else []).isEmpty) = true := by
+            by_cases hcm : (t.ty == TokType.comment) = true
+            · simp only [hcm, if_true]; simpa [hcm] using hsp
+            · simp [hcm]
+          have hb : ((plainSpan text t 0).len16 == 0) = false := by simpa using h0
+          simp only [emitted, this, Bool.not_true, Bool.false_eq_true, if_false, hb]
+        rw [hem] at hm ⊢
+        simp only [List.all_cons, List.all_nil, Bool.and_true, measured, Bool.and_eq_true,
+          decide_eq_true_eq] at hm
+        rw [hirr.2.2] at hm
+        have h16 : (plainSpan text t semType).len16 < 2 ^ 32 := by omega
+        simp only [List.map_cons, List.map_nil, List.mem_singleton] at ha
+        subst ha
+        refine ⟨_, List.mem_singleton.mpr rfl, ?_⟩
+        rw [absOf_plainToken text t semType _ he h16, hirr.1, hirr.2.2]
+        exact ⟨rfl, rfl, rfl⟩
 
 /-! ### all tokens -/
 
 /-- Position bound for the first mapped lexer token. -/
-def Bound (L p : Nat) : List Token → Prop
+def Bound (text : Bytes) (L p : Nat) : List Token → Prop
   | [] => True
-  | t :: _ => L < t.pos.line - 1 ∨ (L = t.pos.line - 1 ∧ p ≤ t.pos.col - 1)
+  | t :: _ => L < t.pos.line - 1 ∨ (L = t.pos.line - 1 ∧ p ≤ colAt text t.pos.off)
 
-theorem stepTok_unmapped (cls : Classes) (c : Ctx) (t : Token) (h : mapTokenType t.ty = none) :
-    (stepTok cls c t).2 = [] := by simp [stepTok, h]
+theorem stepTok_unmapped (cls : Classes) (text : Bytes) (c : Ctx) (t : Token) (h : mapTokenType t.ty = none) :
+    (stepTok cls text c t).2 = [] := by simp [stepTok, h]
 
-theorem tokGo_ordered (cls : Classes) (c : Ctx) (toks : List Token) (L p : Nat)
-    (hall : (mappedBody toks).all (tokBounds cls) = true) (hch : chainB cls (mappedBody toks) = true)
-    (hb : Bound L p (mappedBody toks)) :
-    orderedDisjoint ((tokGo cls c toks).map absOf) = true ∧ After L p ((tokGo cls c toks).map absOf) := by
+/-- All pieces of all mapped tokens are `measured`. -/
+def MeasAll (cls : Classes) (text : Bytes) (l : List Token) : Prop :=
+  ∀ t ∈ l, (emitted cls text t).all (measured text) = true
+
+theorem measAll_of (cls : Classes) (text : Bytes) (toks : List Token) (hm : measB cls text toks = true) :
+    MeasAll cls text (mappedBody toks) := by
+  intro t ht
+  simp only [measB, List.all_eq_true] at hm
+  exact List.all_eq_true.mpr (hm t ht)
+
+theorem tokGo_ordered (cls : Classes) (text : Bytes) (c : Ctx) (toks : List Token) (L p : Nat)
+    (hall : (mappedBody toks).all (extentOk text) = true) (hch : chainB text (mappedBody toks) = true)
+    (hm : MeasAll cls text (mappedBody toks))
+    (hb : Bound text L p (mappedBody toks)) :
+    orderedDisjoint ((tokGo cls text c toks).map absOf) = true ∧
+      After L p ((tokGo cls text c toks).map absOf) := by
   induction toks generalizing c L p with
   | nil => simp [tokGo, orderedDisjoint, After]
   | cons t rest ih =>
@@ -339,23 +537,24 @@ theorem tokGo_ordered (cls : Classes) (c : Ctx) (toks : List Token) (L p : Nat)
     · simp [he, orderedDisjoint, After]
     · have he' : (t.ty == TokType.eof) = false := by simp [he]
       simp only [he', Bool.false_eq_true, if_false, List.map_append]
-      cases hm : mapTokenType t.ty with
+      cases hmt : mapTokenType t.ty with
       | none =>
-        have hmb : mappedBody (t :: rest) = mappedBody rest := by simp [mappedBody, he', hm]
-        rw [hmb] at hall hch hb
-        rw [stepTok_unmapped cls c t hm]
-        simpa using ih (stepTok cls c t).1 L p hall hch hb
+        have hmb : mappedBody (t :: rest) = mappedBody rest := by simp [mappedBody, he', hmt]
+        rw [hmb] at hall hch hb hm
+        rw [stepTok_unmapped cls text c t hmt]
+        simpa using ih (stepTok cls text c t).1 L p hall hch hm hb
       | some ty =>
-        have hmb : mappedBody (t :: rest) = t :: mappedBody rest := by simp [mappedBody, he', hm]
-        rw [hmb] at hall hch hb
+        have hmb : mappedBody (t :: rest) = t :: mappedBody rest := by simp [mappedBody, he', hmt]
+        rw [hmb] at hall hch hb hm
         simp only [List.all_cons, Bool.and_eq_true] at hall
         obtain ⟨htb, hall'⟩ := hall
-        have hblk := stepTok_block cls c t htb
-        have hch' : chainB cls (mappedBody rest) = true := by
+        have hext := extentP_of text t htb
+        have hblk := stepTok_block cls text c t hext (hm t List.mem_cons_self)
+        have hch' : chainB text (mappedBody rest) = true := by
           cases hr : mappedBody rest with
           | nil => simp [chainB]
           | cons t' r => rw [hr] at hch; simp only [chainB, Bool.and_eq_true] at hch; exact hch.2
-        have hbound : Bound (t.pos.line - 1) (t.pos.col - 1 + claimWidth cls t) (mappedBody rest) := by
+        have hbound : Bound text (t.pos.line - 1) (colAt text t.stop.off) (mappedBody rest) := by
           cases hr : mappedBody rest with
           | nil => trivial
           | cons t' r =>
@@ -363,17 +562,22 @@ theorem tokGo_ordered (cls : Classes) (c : Ctx) (toks : List Token) (L p : Nat)
             simp only [chainB, Bool.and_eq_true] at hch
             have h := hch.1
             simp only [Bound]
-            simp only [boxLe, Bool.or_eq_true, decide_eq_true_eq, Bool.and_eq_true, beq_iff_eq] at h
-            simp only [tokBounds, Bool.and_eq_true, decide_eq_true_eq] at htb
-            omega
-        obtain ⟨ho, ha⟩ := ih (stepTok cls c t).1 _ _ hall' hch' hbound
+            simp only [follows, Bool.or_eq_true, decide_eq_true_eq, Bool.and_eq_true, beq_iff_eq] at h
+            have := hext.l1
+            rcases h.2 with h2 | ⟨h2, h3⟩
+            · left; omega
+            · right; exact ⟨by omega, colAt_mono _ _ _ h.1 (noLf_iff _ _ _ h3)⟩
+        obtain ⟨ho, ha⟩ := ih (stepTok cls text c t).1 _ _ hall' hch'
+          (fun t' ht' => hm t' (List.mem_cons_of_mem _ ht')) hbound
         refine ⟨block_append_ordered hblk ha ho, ?_⟩
         refine after_block_append hblk ?_ ha
         simpa [Bound] using hb
 
-theorem tokGo_inline (cls : Classes) (lens : List Nat) (c : Ctx) (toks : List Token)
-    (hall : (mappedBody toks).all (tokBounds cls) = true) (hi : inlineB lens cls toks = true) :
-    ∀ a ∈ (tokGo cls c toks).map absOf, inLine lens a = true := by
+theorem tokGo_inline (cls : Classes) (text : Bytes) (lens : List Nat) (c : Ctx) (toks : List Token)
+    (hall : (mappedBody toks).all (extentOk text) = true)
+    (hm : MeasAll cls text (mappedBody toks))
+    (hi : inlineB lens cls text toks = true) :
+    ∀ a ∈ (tokGo cls text c toks).map absOf, inLine lens a = true := by
   induction toks generalizing c with
   | nil => simp [tokGo]
   | cons t rest ih =>
@@ -382,30 +586,35 @@ theorem tokGo_inline (cls : Classes) (lens : List Nat) (c : Ctx) (toks : List To
     · simp [he]
     · have he' : (t.ty == TokType.eof) = false := by simp [he]
       simp only [he', Bool.false_eq_true, if_false, List.map_append]
-      cases hm : mapTokenType t.ty with
+      cases hmt : mapTokenType t.ty with
       | none =>
-        have hmb : mappedBody (t :: rest) = mappedBody rest := by simp [mappedBody, he', hm]
+        have hmb : mappedBody (t :: rest) = mappedBody rest := by simp [mappedBody, he', hmt]
         simp only [inlineB, hmb] at hi
-        rw [hmb] at hall
-        rw [stepTok_unmapped cls c t hm]
-        simpa using ih (stepTok cls c t).1 hall (by simpa [inlineB] using hi)
+        rw [hmb] at hall hm
+        rw [stepTok_unmapped cls text c t hmt]
+        simpa using ih (stepTok cls text c t).1 hall hm (by simpa [inlineB] using hi)
       | some ty =>
-        have hmb : mappedBody (t :: rest) = t :: mappedBody rest := by simp [mappedBody, he', hm]
+        have hmb : mappedBody (t :: rest) = t :: mappedBody rest := by simp [mappedBody, he', hmt]
         simp only [inlineB, hmb, List.all_cons, Bool.and_eq_true] at hi
-        rw [hmb] at hall
+        rw [hmb] at hall hm
         simp only [List.all_cons, Bool.and_eq_true] at hall
         obtain ⟨htb, hall'⟩ := hall
         obtain ⟨hin, hirest⟩ := hi
         intro a ha
         rcases List.mem_append.mp ha with ha | ha
-        · have hblk := stepTok_block cls c t htb
-          have hmem := block_mem hblk a ha
-          simp only [inLine, hmem.1]
-          split at hin
-          · simp only [decide_eq_true_eq] at hin ⊢
+        · have hext := extentP_of text t htb
+          have hmt' := hm t List.mem_cons_self
+          obtain ⟨sp, hsp, h1, h2, h3⟩ := stepTok_abs_mem cls text c t hext hmt' a ha
+          have hms := (List.all_eq_true.mp hmt') sp hsp
+          have hin' := (List.all_eq_true.mp hin) sp hsp
+          simp only [measured, Bool.and_eq_true, decide_eq_true_eq] at hms
+          simp only [inLine, h1]
+          split at hin'
+          · simp only [decide_eq_true_eq] at hin' ⊢
             omega
-          · cases hin
-        · exact ih _ hall' (by simpa [inlineB] using hirest) a ha
+          · cases hin'
+        · exact ih _ hall' (fun t' ht' => hm t' (List.mem_cons_of_mem _ ht'))
+            (by simpa [inlineB] using hirest) a ha
 
 /-! ### legend and coverage -/
 
@@ -417,58 +626,68 @@ theorem mapTokenType_kind (k : TokType) (x : UInt32) (h : mapTokenType k = some 
   cases k <;> simp [mapTokenType] at h <;> subst h <;> decide
 
 /-- The shape of everything `stepTok` emits. -/
-theorem stepTok_mem (cls : Classes) (c : Ctx) (t : Token) (s : SemToken)
-    (h : s ∈ (stepTok cls c t).2) :
-    (t.ty = .comment ∧ s ∈ extractTags cls t ∧ (extractTags cls t).isEmpty = false) ∨
+theorem stepTok_mem (cls : Classes) (text : Bytes) (c : Ctx) (t : Token) (s : SemToken)
+    (h : s ∈ (stepTok cls text c t).2) :
+    (t.ty = .comment ∧ s ∈ extractTags cls text t ∧ (extractTags cls text t).isEmpty = false) ∨
     (∃ semType mods, (mapTokenType t.ty = some semType ∨ (t.ty = .text ∧ semType = tyPayee)) ∧
-      (mods = 0 ∨ mods = 1) ∧ s = plainToken t semType mods ∧
-      (t.ty = .comment → (extractTags cls t).isEmpty = true)) := by
-  generalize hres : stepTok cls c t = res at h
+      (mods = 0 ∨ mods = 1) ∧ s = plainToken text t semType mods ∧
+      u32 (plainSpan text t semType).len16 ≠ 0 ∧
+      (t.ty = .comment → (extractTags cls text t).isEmpty = true)) := by
+  generalize hres : stepTok cls text c t = res at h
   simp only [stepTok] at hres
   cases hm : mapTokenType t.ty with
   | none => simp only [hm] at hres; subst hres; simp at h
   | some semType =>
     simp only [hm] at hres
+    have hsem : mapTokenType t.ty = some (if (t.ty == TokType.text && (lineStart c t).isPayee) = true then tyPayee else semType) ∨
+        (t.ty = .text ∧ (if (t.ty == TokType.text && (lineStart c t).isPayee) = true then tyPayee else semType) = tyPayee) := by
+      by_cases hp : (t.ty == TokType.text && (lineStart c t).isPayee) = true
+      · rw [if_pos hp]; right
+        simp only [Bool.and_eq_true, beq_iff_eq] at hp
+        exact ⟨hp.1, rfl⟩
+      · rw [if_neg hp]; exact Or.inl hm
+    generalize (if (t.ty == TokType.text && (lineStart c t).isPayee) = true then tyPayee else semType) = sem at hres hsem
+    have hmods : ∀ b : Bool, (if b = true then (1 : UInt32) else 0) = 0 ∨ (if b = true then (1 : UInt32) else 0) = 1 := by
+      intro b; cases b <;> simp
+    have hmods' := hmods ((lineStart c t).inDirective && ((lineStart c t).directiveType == kwAccount || (lineStart c t).directiveType == kwCommodity) && (t.ty == TokType.account || t.ty == TokType.commodity || t.ty == TokType.text))
+    generalize (if ((lineStart c t).inDirective && ((lineStart c t).directiveType == kwAccount || (lineStart c t).directiveType == kwCommodity) && (t.ty == TokType.account || t.ty == TokType.commodity || t.ty == TokType.text)) = true then (1 : UInt32) else 0) = mods at hres hmods'
+    generalize (if (t.ty == TokType.text && (lineStart c t).isPayee) = true then
+      ({ lineStart c t with isPayee := false } : Ctx) else lineStart c t) = c2 at hres
     by_cases hcm : t.ty = .comment
     · have hc' : (t.ty == TokType.comment) = true := by simp [hcm]
       simp only [hc', if_true] at hres
-      by_cases hsp : (extractTags cls t).isEmpty = true
+      by_cases hsp : (extractTags cls text t).isEmpty = true
       · simp only [hsp, Bool.not_true, Bool.false_eq_true, if_false] at hres
-        subst hres
-        simp only [List.mem_singleton] at h
-        right
-        refine ⟨_, _, ?_, ?_, h, fun _ => hsp⟩
-        · left; simp [hcm]
-        · split <;> simp
-      · have hsp' : (extractTags cls t).isEmpty = false := by simpa using hsp
+        by_cases hz : (u32 (plainSpan text t sem).len16 == 0) = true
+        · simp only [hz, if_true] at hres; subst hres; simp at h
+        · simp only [hz, Bool.false_eq_true, if_false] at hres
+          subst hres
+          simp only [List.mem_singleton] at h
+          exact Or.inr ⟨_, _, (by rw [hm] at hsem; exact hsem), hmods', h, by simpa using hz, fun _ => hsp⟩
+      · have hsp' : (extractTags cls text t).isEmpty = false := by simpa using hsp
         simp only [hsp', Bool.not_false, if_true] at hres
         subst hres
         exact Or.inl ⟨hcm, h, hsp'⟩
     · have hc' : (t.ty == TokType.comment) = false := by simp [hcm]
       simp only [hc', Bool.false_eq_true, if_false, List.isEmpty_nil, Bool.not_true] at hres
-      subst hres
-      simp only [List.mem_singleton] at h
-      right
-      refine ⟨_, _, ?_, ?_, h, fun hh => absurd hh hcm⟩
-      · by_cases hp : (t.ty == TokType.text && (lineStart c t).isPayee) = true
-        · rw [if_pos hp]
-          right
-          simp only [Bool.and_eq_true, beq_iff_eq] at hp
-          exact ⟨hp.1, rfl⟩
-        · rw [if_neg hp]; exact Or.inl rfl
-      · split <;> simp
+      by_cases hz : (u32 (plainSpan text t sem).len16 == 0) = true
+      · simp only [hz, if_true] at hres; subst hres; simp at h
+      · simp only [hz, Bool.false_eq_true, if_false] at hres
+        subst hres
+        simp only [List.mem_singleton] at h
+        exact Or.inr ⟨_, _, (by rw [hm] at hsem; exact hsem), hmods', h, by simpa using hz, fun hh => absurd hh hcm⟩
 
-theorem extractTags_mem (cls : Classes) (t : Token) (s : SemToken) (h : s ∈ extractTags cls t) :
-    (s.ty = tyTag ∨ s.ty = tyTagValue) ∧ s.mods = 0 := by
+theorem extractTags_mem (cls : Classes) (text : Bytes) (t : Token) (s : SemToken)
+    (h : s ∈ extractTags cls text t) : (s.ty = tyTag ∨ s.ty = tyTagValue) ∧ s.mods = 0 := by
   simp only [extractTags, List.mem_map] at h
   obtain ⟨sp, hsp, rfl⟩ := h
   obtain ⟨_, _, _, ht⟩ := extractSpans_spec cls t.val
   exact ⟨ht sp hsp, rfl⟩
 
-theorem stepTok_legend (cls : Classes) (c : Ctx) (t : Token) (s : SemToken)
-    (h : s ∈ (stepTok cls c t).2) : s.ty.toNat < 13 ∧ s.mods.toNat < 4 := by
-  rcases stepTok_mem cls c t s h with ⟨_, hmem, _⟩ | ⟨semType, mods, hty, hmods, rfl, _⟩
-  · obtain ⟨hty, hm⟩ := extractTags_mem cls t s hmem
+theorem stepTok_legend (cls : Classes) (text : Bytes) (c : Ctx) (t : Token) (s : SemToken)
+    (h : s ∈ (stepTok cls text c t).2) : s.ty.toNat < 13 ∧ s.mods.toNat < 4 := by
+  rcases stepTok_mem cls text c t s h with ⟨_, hmem, _⟩ | ⟨semType, mods, hty, hmods, rfl, _, _⟩
+  · obtain ⟨hty, hm⟩ := extractTags_mem cls text t s hmem
     rw [hm]
     rcases hty with h | h <;> rw [h] <;> decide
   · simp only [plainToken]
@@ -478,8 +697,8 @@ theorem stepTok_legend (cls : Classes) (c : Ctx) (t : Token) (s : SemToken)
       · subst h; decide
     · rcases hmods with h | h <;> subst h <;> decide
 
-theorem tokGo_legend (cls : Classes) (c : Ctx) (toks : List Token) :
-    ∀ s ∈ tokGo cls c toks, s.ty.toNat < 13 ∧ s.mods.toNat < 4 := by
+theorem tokGo_legend (cls : Classes) (text : Bytes) (c : Ctx) (toks : List Token) :
+    ∀ s ∈ tokGo cls text c toks, s.ty.toNat < 13 ∧ s.mods.toNat < 4 := by
   induction toks generalizing c with
   | nil => simp [tokGo]
   | cons t rest ih =>
@@ -488,11 +707,11 @@ theorem tokGo_legend (cls : Classes) (c : Ctx) (toks : List Token) :
     · simp
     · intro s hs
       rcases List.mem_append.mp hs with h | h
-      · exact stepTok_legend cls c t s h
+      · exact stepTok_legend cls text c t s h
       · exact ih _ s h
 
-theorem tokGoSrc_fst (cls : Classes) (c : Ctx) (toks : List Token) :
-    (tokGoSrc cls c toks).map (·.1) = tokGo cls c toks := by
+theorem tokGoSrc_fst (cls : Classes) (text : Bytes) (c : Ctx) (toks : List Token) :
+    (tokGoSrc cls text c toks).map (·.1) = tokGo cls text c toks := by
   induction toks generalizing c with
   | nil => rfl
   | cons t rest ih =>
@@ -501,8 +720,9 @@ theorem tokGoSrc_fst (cls : Classes) (c : Ctx) (toks : List Token) :
     · rfl
     · simp [ih, List.map_map, Function.comp_def]
 
-theorem tokGoSrc_mem (cls : Classes) (c : Ctx) (toks : List Token) (s : SemToken) (t : Token)
-    (h : (s, t) ∈ tokGoSrc cls c toks) : ∃ c', s ∈ (stepTok cls c' t).2 ∧ t ∈ toks ∧ t.ty ≠ .eof := by
+theorem tokGoSrc_mem (cls : Classes) (text : Bytes) (c : Ctx) (toks : List Token) (s : SemToken) (t : Token)
+    (h : (s, t) ∈ tokGoSrc cls text c toks) :
+    ∃ c', s ∈ (stepTok cls text c' t).2 ∧ t ∈ toks ∧ t.ty ≠ .eof := by
   induction toks generalizing c with
   | nil => simp [tokGoSrc] at h
   | cons t0 rest ih =>
@@ -517,48 +737,77 @@ theorem tokGoSrc_mem (cls : Classes) (c : Ctx) (toks : List Token) (s : SemToken
       · obtain ⟨c', h1, h2, h3⟩ := ih _ h
         exact ⟨c', h1, List.mem_cons_of_mem _ h2, h3⟩
 
-/-- A plain token (not cut out of a comment) covers its lexeme whenever the lexer's position and
-    value are faithful to the text. -/
+theorem stripCR_semicolon (val : Bytes) (h : val.getLast? ≠ some cr) :
+    stripCR (0x3B :: val) = 0x3B :: val := by
+  unfold stripCR
+  rw [if_neg]
+  rw [List.getLast?_cons]
+  intro e
+  cases hv : val.getLast? with
+  | none => rw [hv] at e; simp [cr] at e
+  | some x => rw [hv] at e; simp at e; exact h (by rw [hv, e])
+
+/-- The byte range `plainSpan` measures is the lexeme the specification assigns to the token,
+    and its UTF-16 length is the lexeme's. -/
+theorem plainSpan_lexeme (text : Bytes) (t : Token) (x : UInt32) (he : ExtentP text t)
+    (hcr : devCrComment t = false) (hnz : (plainSpan text t x).len16 ≠ 0) :
+    lexemeRange text t = ((plainSpan text t x).off, (plainSpan text t x).off + (plainSpan text t x).len) ∧
+    u16lenB (sliceB text (plainSpan text t x).off ((plainSpan text t x).off + (plainSpan text t x).len))
+      = (plainSpan text t x).len16 := by
+  by_cases hc : t.ty = .comment
+  · have hc' : (t.ty == TokType.comment) = true := by simp [hc]
+    have hnp : (t.ty == TokType.pipe) = false := by simp [hc]
+    have hlen := he.cmtLen hc
+    have hraw := he.cmt hc
+    have hcr' : t.val.getLast? ≠ some cr := by
+      simpa [devCrComment, hc'] using hcr
+    have hs := stripCR_semicolon t.val hcr'
+    simp only [lexemeRange, plainSpan, hc', hnp, Bool.false_and, Bool.false_eq_true, if_false, if_true,
+      hraw, hs, List.length_cons]
+    refine ⟨trivial, ?_⟩
+    rw [show t.pos.off + (t.val.length + 1) = t.stop.off by omega, hraw,
+      u16lenB_cons_ascii _ _ (by decide)]
+    omega
+  · have hc' : (t.ty == TokType.comment) = false := by simp [hc]
+    have hne : ¬ (t.ty == TokType.pipe && t.pos.off == t.stop.off) = true := by
+      intro hp
+      simp only [Bool.and_eq_true, beq_iff_eq] at hp
+      apply hnz
+      have : sliceB text t.pos.off t.stop.off = [] := by simp [sliceB, hp.2]
+      simp only [plainSpan, hc', Bool.false_eq_true, if_false, this]
+      rfl
+    simp only [lexemeRange, plainSpan, hc', hne, Bool.false_eq_true, if_false]
+    refine ⟨trivial, ?_⟩
+    have h1 := leadWs_trim_le (sliceB text t.pos.off t.stop.off)
+    rw [sliceB_length _ _ _ he.inText] at h1
+    rw [sliceB_sub text t.pos.off t.stop.off _ _ h1, drop_take_trim]
+
+/-- A plain token (not cut out of a comment) covers its lexeme: the extent is well-formed, the
+    cursor's column at the lexeme's first byte is its LSP column (`placed`), and the token is
+    not a comment that includes the CR of its line end. -/
 theorem plain_covers (text : Bytes) (t : Token) (semType mods : UInt32)
     (hty : mapTokenType t.ty = some semType ∨ (t.ty = .text ∧ semType = tyPayee))
-    (hf : faithful text t = true)
-    (hb : 1 ≤ t.pos.line ∧ t.pos.line < 2 ^ 32 ∧ 1 ≤ t.pos.col ∧ t.pos.col + u16lenB t.val + 1 < 2 ^ 32) :
-    coversTok text t (absOf (plainToken t semType mods)) = true := by
-  obtain ⟨hl1, hl2, hc1, hw⟩ := hb
-  have hline : (u32pred t.pos.line).toNat = t.pos.line - 1 := u32pred_toNat _ hl1 hl2
-  have hcol : (u32pred t.pos.col).toNat = t.pos.col - 1 := u32pred_toNat _ hc1 (by omega)
-  have hlen : (plainToken t semType mods).len.toNat
-      = u16lenB t.val + (if t.ty == .comment then 1 else 0) := by
-    simp only [plainToken]
-    split
-    · rw [u32_add_toNat] <;> rw [u32_toNat _ (by omega)] <;> simp <;> omega
-    · simp [u32_toNat _ (show u16lenB t.val < 2 ^ 32 by omega)]
-  simp only [faithful, Bool.and_eq_true, decide_eq_true_eq, beq_iff_eq] at hf
+    (he : ExtentP text t) (hp : placed text t = true) (hcr : devCrComment t = false)
+    (hnz : u32 (plainSpan text t semType).len16 ≠ 0) :
+    coversTok text t (absOf (plainToken text t semType mods)) = true := by
+  have hn0 : (plainSpan text t semType).len16 ≠ 0 := by
+    intro e; apply hnz; rw [e]; rfl
+  obtain ⟨hr, hl⟩ := plainSpan_lexeme text t semType he hcr hn0
+  have hin := plainSpan_inside text t semType he
+  have hle16 : (plainSpan text t semType).len16 ≤ text.length := by
+    rw [← hl]
+    refine Nat.le_trans (u16lenB_le _) ?_
+    simp only [sliceB, List.length_take, List.length_drop]
+    omega
+  have h16 : (plainSpan text t semType).len16 < 2 ^ 32 := Nat.lt_of_le_of_lt hle16 he.small
   have hkind : (kindTypes t.ty).contains semType.toNat = true := by
     rcases hty with h | ⟨h1, h2⟩
     · exact mapTokenType_kind _ _ h
     · rw [h1, h2]; decide
-  have hline' : (plainToken t semType mods).line.toNat = t.pos.line - 1 := by simp [plainToken, hline]
-  have hcol' : (plainToken t semType mods).col.toNat = t.pos.col - 1 := by simp [plainToken, hcol]
-  have hty' : (plainToken t semType mods).ty = semType := by simp [plainToken]
-  have hlen' : (plainToken t semType mods).len.toNat
-      = u16lenB t.val + (if t.ty = .comment then 1 else 0) := by
-    rw [hlen]; by_cases h : t.ty = .comment <;> simp [h]
-  have h1 : decide ((absOf (plainToken t semType mods)).len > 0) = true := by
-    simp only [absOf, hlen', decide_eq_true_eq]; exact hf.1
-  have h2 : (kindTypes t.ty).contains (absOf (plainToken t semType mods)).ty = true := by
-    simp only [absOf, hty']; exact hkind
-  have h3 : (lexemeSpan text t == ((absOf (plainToken t semType mods)).line,
-      (absOf (plainToken t semType mods)).start, (absOf (plainToken t semType mods)).len)) = true := by
-    simp only [absOf, hline', hcol', hlen', hf.2, beq_self_eq_true]
-  simp only [coversTok, h1, h2, h3, Bool.and_self]
-
-end HL.Lemmas.SemTok
-
-namespace HL.Lemmas.SemTok
-open HL HL.SemTok HL.SemTokSpec
-
-/-! ### what the tag spans contain -/
+  simp only [placed, hr, beq_iff_eq] at hp
+  simp only [coversTok, absOf_plainToken text t semType mods he h16, lexemeSpan, hr, hl, hkind,
+    Bool.and_true, hp, beq_self_eq_true, decide_eq_true_eq]
+  omega
 
 theorem orderedDisjoint_weakly (l : List AbsTok) (h : orderedDisjoint l = true) :
     weaklyOrdered l = true := by
@@ -597,76 +846,111 @@ theorem indexOf_spec (pat s : Bytes) (i : Nat) (h : indexOf pat s = some i) :
         subst h
         simpa using ih j hi
 
+/-! ### what the tag spans contain -/
+
 /-- What a span found by `extractTagTokensFromComment` holds: a tag span is `name:` for a name
-    that `isValidTagName` accepts; a value span is not empty. -/
+    that `isValidTagName` accepts; a value span is a non-empty string without white space around
+    it (the result of a `strings.TrimSpace`); the token's length is the UTF-16 length of that
+    text. -/
 def SpanContent (cls : Classes) (comment : Bytes) (sp : TagSpan) : Prop :=
   (sp.ty = tyTag ∧ ∃ name, isValidTagName cls name = true ∧ sp.len = name.length + 1 ∧
-      (comment.drop sp.off).take sp.len = name ++ [colon]) ∨
-  (sp.ty = tyTagValue ∧ 0 < sp.len)
+      sp.len16 = u16lenB name + 1 ∧ (comment.drop sp.off).take sp.len = name ++ [colon]) ∨
+  (sp.ty = tyTagValue ∧ ∃ value, value ≠ [] ∧ (∃ r, value = trimSpace r) ∧ sp.len = value.length ∧
+      sp.len16 = u16lenB value ∧ (comment.drop sp.off).take sp.len = value)
+
+/-- A slice of the comment that lies inside a part is a slice of the part. -/
+theorem slice_in_part (comment part tail : Bytes) (ps k m : Nat)
+    (h : comment.drop ps = part ++ tail) (hk : k + m ≤ part.length) :
+    (comment.drop (ps + k)).take m = (part.drop k).take m := by
+  rw [← List.drop_drop, h, List.drop_append_of_le_length (by omega),
+    List.take_append_of_le_length (by simp only [List.length_drop]; omega)]
+
+theorem slice_in_trim (s : Bytes) (j m : Nat) (h : j + m ≤ (trimSpace s).length) :
+    (s.drop (leadWs s + j)).take m = ((trimSpace s).drop j).take m := by
+  obtain ⟨post, hp⟩ := drop_leadWs s
+  rw [← List.drop_drop, hp, List.drop_append_of_le_length (by omega),
+    List.take_append_of_le_length (by simp only [List.length_drop]; omega)]
 
 theorem extractStep_content (cls : Classes) (comment : Bytes) (st : Nat × List TagSpan)
-    (part : Bytes) :
-    ∀ sp ∈ (extractStep cls comment st part).2, sp ∈ st.2 ∨ SpanContent cls comment sp := by
-  generalize hres : extractStep cls comment st part = res
+    (part tail : Bytes) (hd : comment.drop st.1 = part ++ tail) :
+    ∀ sp ∈ (extractStep cls st part).2, sp ∈ st.2 ∨ SpanContent cls comment sp := by
+  have hpart := leadWs_trim_le part
+  have hsl := slice_in_trim part
+  generalize hres : extractStep cls st part = res
   simp only [extractStep] at hres
-  generalize trimSpace part = trimmed at hres
+  generalize trimSpace part = trimmed at hres hpart hsl
   split at hres
   · subst hres; exact fun sp h => Or.inl h
-  · rename_i colonIdx _
-    generalize trimSpace (List.take colonIdx trimmed) = name at hres
-    generalize (if colonIdx + 1 < trimmed.length then trimSpace (List.drop (colonIdx + 1) trimmed) else []) = value at hres
+  · rename_i colonIdx hci
+    have hcl := indexOf_le _ _ _ hci
+    have hcs := indexOf_spec _ _ _ hci
+    simp only [List.length_singleton] at hcl hcs
+    have hname : (List.take colonIdx trimmed).length = colonIdx := by
+      simp only [List.length_take]; omega
+    have hrest := leadWs_trim_le (List.drop (colonIdx + 1) trimmed)
+    have hval := drop_take_trim (List.drop (colonIdx + 1) trimmed)
+    simp only [List.length_drop] at hrest
+    have htag : (comment.drop (st.1 + leadWs part)).take (colonIdx + 1)
+        = List.take colonIdx trimmed ++ [colon] := by
+      rw [slice_in_part comment part tail st.1 (leadWs part) (colonIdx + 1) hd (by omega)]
+      have := hsl 0 (colonIdx + 1) (by omega)
+      simp only [Nat.add_zero, List.drop_zero] at this
+      rw [this, List.take_add, hcs]
     split at hres
     · subst hres; exact fun sp h => Or.inl h
-    · rename_i hname
+    · rename_i hnm
+      have hvalid : isValidTagName cls (List.take colonIdx trimmed) = true := by
+        simp only [Bool.or_eq_true, Bool.not_eq_true', not_or, Bool.not_eq_false] at hnm
+        exact hnm.2
+      have hT : SpanContent cls comment (TagSpan.mk (st.1 + leadWs part)
+          ((List.take colonIdx trimmed).length + 1) (u16lenB (List.take colonIdx trimmed) + 1) tyTag) := by
+        refine Or.inl ⟨rfl, _, hvalid, rfl, rfl, ?_⟩
+        simp only [hname]; exact htag
       split at hres
-      · subst hres; exact fun sp h => Or.inl h
-      · rename_i ts hts
-        have hvalid : isValidTagName cls name = true := by
-          simp only [Bool.or_eq_true, Bool.not_eq_true', not_or, Bool.not_eq_false] at hname
-          exact hname.2
-        have hspec := indexOf_spec _ _ _ hts
-        simp only [List.drop_drop, List.length_append, List.length_singleton] at hspec
-        have htag : SpanContent cls comment { off := ts + st.1, len := name.length + 1, ty := tyTag } := by
-          refine Or.inl ⟨rfl, name, hvalid, rfl, ?_⟩
-          have e : st.1 + ts = ts + st.1 := Nat.add_comm _ _
-          first
-            | exact hspec
-            | (rw [e] at hspec; exact hspec)
-        split at hres
-        · subst hres
-          intro sp h
-          rcases List.mem_append.mp h with h | h
+      · subst hres
+        intro sp h
+        rcases List.mem_append.mp h with h | h
+        · exact Or.inl h
+        · rw [List.mem_singleton] at h; subst h; exact Or.inr hT
+      · rename_i hvne
+        subst hres
+        intro sp h
+        rcases List.mem_append.mp h with h | h
+        · rcases List.mem_append.mp h with h | h
           · exact Or.inl h
-          · simp at h; subst h; exact Or.inr htag
-        · rename_i hval
-          have hvpos : 0 < value.length := by
-            cases value with
-            | nil => simp at hval
-            | cons _ _ => simp
-          split at hres
-          · subst hres
-            intro sp h
-            rcases List.mem_append.mp h with h | h
-            · exact Or.inl h
-            · simp at h; subst h; exact Or.inr htag
-          · subst hres
-            intro sp h
-            rcases List.mem_append.mp h with h | h
-            · rcases List.mem_append.mp h with h | h
-              · exact Or.inl h
-              · simp at h; subst h; exact Or.inr htag
-            · simp at h; subst h; exact Or.inr (Or.inr ⟨rfl, hvpos⟩)
+          · rw [List.mem_singleton] at h; subst h; exact Or.inr hT
+        · rw [List.mem_singleton] at h; subst h
+          refine Or.inr (Or.inr ⟨rfl, _, ?_, ⟨_, rfl⟩, rfl, rfl, ?_⟩)
+          · intro e; apply hvne; simp [e]
+          · simp only [hname]
+            have e1 : st.1 + leadWs part + colonIdx + 1 + leadWs (List.drop (colonIdx + 1) trimmed)
+                = st.1 + (leadWs part + (colonIdx + 1 + leadWs (List.drop (colonIdx + 1) trimmed))) := by omega
+            rw [e1, slice_in_part comment part tail st.1 _ _ hd (by omega),
+              hsl _ _ (by omega)]
+            rw [List.drop_drop] at hval
+            exact hval
 
 theorem extractFold_content (cls : Classes) (comment : Bytes) (parts : List Bytes)
-    (st : Nat × List TagSpan) :
-    ∀ sp ∈ (parts.foldl (extractStep cls comment) st).2, sp ∈ st.2 ∨ SpanContent cls comment sp := by
+    (st : Nat × List TagSpan) (hne : parts ≠ []) (hd : comment.drop st.1 = joinParts comma parts) :
+    ∀ sp ∈ (parts.foldl (extractStep cls) st).2, sp ∈ st.2 ∨ SpanContent cls comment sp := by
   induction parts generalizing st with
-  | nil => exact fun sp h => Or.inl h
+  | nil => exact absurd rfl hne
   | cons p rest ih =>
-    intro sp h
-    rcases ih (extractStep cls comment st p) sp h with h | h
-    · exact extractStep_content cls comment st p sp h
-    · exact Or.inr h
+    obtain ⟨_, _, _, hnext, _⟩ := extractStep_spec cls st p
+    cases rest with
+    | nil =>
+      simp only [List.foldl_cons, List.foldl_nil]
+      exact extractStep_content cls comment st p [] (by simpa [joinParts] using hd)
+    | cons q r =>
+      have hd' : comment.drop st.1 = p ++ (comma :: joinParts comma (q :: r)) := by
+        simpa [joinParts] using hd
+      intro sp h
+      have hnext' : comment.drop (extractStep cls st p).1 = joinParts comma (q :: r) := by
+        rw [hnext, show st.1 + p.length + 1 = st.1 + (p.length + 1) by omega, ← List.drop_drop, hd']
+        simp
+      rcases ih (extractStep cls st p) (by simp) hnext' sp h with h | h
+      · exact extractStep_content cls comment st p _ hd' sp h
+      · exact Or.inr h
 
 /-- Every tag token is cut out of the comment exactly around `name:` (a name the Go predicate
     `isValidTagName` accepts), every tag value token around a non-empty string. -/
@@ -676,7 +960,8 @@ theorem extractSpans_content (cls : Classes) (comment : Bytes) :
   split
   · simp
   · intro sp h
-    rcases extractFold_content cls comment _ (0, []) sp h with h | h
+    rcases extractFold_content cls comment _ (0, []) (splitOn_ne_nil _ _)
+        (by simp [splitOn_join]) sp h with h | h
     · simp at h
     · exact h
 
